@@ -75,6 +75,23 @@ def solve(assumptions, goal, want_model=True, z3_ms=None, use_cvc5=True):
     return res
 
 
+def inconsistent(assumptions, ms=3000):
+    """Vacuity guard: True when the assumptions alone are (cheaply) refutable - a path whose
+    obligations would all be discharged for the wrong reason."""
+    from .abstraction import abstract_query
+
+    q = abstract_query(assumptions, z3.BoolVal(False))
+    fs = q[0] if q is not None else list(assumptions)
+    s0 = z3.Solver()
+    s0.set("timeout", ms)
+    s0.set("random_seed", SEED)
+    s0.set("smt.mbqi", False)
+    s0.set("smt.auto_config", False)
+    for a in fs:
+        s0.add(a)
+    return s0.check() == z3.unsat
+
+
 def solve_precise(assumptions, goal, want_model=True, z3_ms=None, use_cvc5=True):
     t0 = time.time()
     s = z3.Solver()
